@@ -5,3 +5,8 @@ import Dtr.Props.C16
 #print axioms Dtr.C16_load_test
 #print axioms Dtr.C16_load_by_name
 #print axioms Dtr.C16_text_ignores_comments
+#print axioms Dtr.C16_signals_kept
+#print axioms Dtr.C16_bidirectional_iff
+#print axioms Dtr.C16_bidir_names
+#print axioms Dtr.C16_errors
+#print axioms Dtr.C16_attrib_own_entry
